@@ -39,7 +39,9 @@ WRAPS = ("Optional[{output_param}]", "Optional[Union[{output_param}, str]]", "Li
 EVALS = {"VALUE": "[5 * 5, 'x']", "TUP": "('a', 'b', 'c')", "GEN": "tuple(range(3))", "WORDS": "'np tf'.split()",
          # members that compare equal without being the same constant, a repeated member, a single member, mixed kinds
          "FLAGS": "(0, False, 1, True)", "MODES": "('r', 'w', 'r')", "LEVELS": "[1, True, 2]", "ONE": "('only',)",
-         "MIXED": "(None, 'a', 2.5, -1)"}
+         "MIXED": "(None, 'a', 2.5, -1)",
+         # the shortest strings: empty, one character, two characters - among them the two that consist of quote marks only
+         "QUOTES": "(\"''\", 'x')", "DQ": "('\"\"',)", "SHORT": "('', 'a', 'ab')", "TICKS": "(\"'\", '\"')"}
 BUDGET_S = {"quick": 400, "thorough": 3000}
 
 
